@@ -98,3 +98,58 @@ def binding(ctx, vm_cell, name):
     if r.variant == 0:
         return None
     return r.fields[0].fields[0]
+
+
+def struct_eq(x, y, skip_types=('ast::Position',)):
+    """structural equality of two engine values -> False | list of z3 conditions (empty list = equal outright).
+    Aggregates of the types in `skip_types` are ignored."""
+    import z3
+    from mirsym.vals import deref_all, Ref, CellV, MapV
+    conds = []
+
+    def eq(a, c):
+        a, c = deref_all(a), deref_all(c)
+        ta, tc = type(a), type(c)
+        if ta is Agg and tc is Agg:
+            if any(a.ty.endswith(s) for s in skip_types) and a.ty == c.ty:
+                return True
+            if a.ty != c.ty or len(a.fields) != len(c.fields):
+                return False
+            if is_sym(a.variant) or is_sym(c.variant):
+                conds.append(a.variant == c.variant)
+            elif a.variant != c.variant:
+                return False
+            return all(eq(p, q) for p, q in zip(a.fields, c.fields))
+        if ta is VecV and tc is VecV:
+            return len(a.items) == len(c.items) and all(eq(p, q) for p, q in zip(a.items, c.items))
+        if ta is MapV and tc is MapV:
+            return len(a.items) == len(c.items) and all(eq(p[0], q[0]) and eq(p[1], q[1]) for p, q in zip(a.items, c.items))
+        if ta in (str, SymStr) and tc in (str, SymStr):
+            ab = a.bytes if ta is SymStr else tuple(a.encode())
+            cb = c.bytes if tc is SymStr else tuple(c.encode())
+            if len(ab) != len(cb):
+                return False
+            for p, q in zip(ab, cb):
+                if is_sym(p) or is_sym(q):
+                    conds.append((p if is_sym(p) else z3.BitVecVal(p, 8)) == (q if is_sym(q) else z3.BitVecVal(q, 8)))
+                elif p != q:
+                    return False
+            return True
+        if is_sym(a) or is_sym(c):
+            if is_sym(a) and is_sym(c) and a.eq(c):
+                return True
+            try:
+                if is_sym(a) and not is_sym(c):
+                    c = z3.BitVecVal(c, a.size()) if z3.is_bv(a) else (z3.BoolVal(c) if z3.is_bool(a) else z3.FPVal(c, a.sort()))
+                if is_sym(c) and not is_sym(a):
+                    a = z3.BitVecVal(a, c.size()) if z3.is_bv(c) else (z3.BoolVal(a) if z3.is_bool(c) else z3.FPVal(a, c.sort()))
+                conds.append(z3.fpEQ(a, c) if z3.is_fp(a) else a == c)
+            except Exception:
+                return False
+            return True
+        if ta in (Agg, VecV, MapV) or tc in (Agg, VecV, MapV):
+            return False
+        if ta is float and tc is float:
+            return a == c or (a != a and c != c)
+        return ta is tc and a == c or (ta in (int, bool) and tc in (int, bool) and a == c)
+    return conds if eq(x, y) else False
